@@ -375,8 +375,32 @@ def database(draw):
     return db
 
 
+def shadow_selects():
+    """a select alias that is also the name of a source column: a bare name in ORDER BY / GROUP BY must still mean what the builder call named
+    (the column given to orderby(); the aliased expression given to groupby())"""
+    def base(items, **kw):
+        sa = {"kind": "select", "sources": [{"key": "s0", "table": "t1", "alias": None}], "joins": [], "items": items, "distinct": False, "where": None, "group": [], "having": None,
+              "order": [], "limit": None, "offset": None, "setop": None}
+        sa.update(kw)
+        return sa
+    A, B, ID = ["col", "s0", "a"], ["col", "s0", "b"], ["col", "s0", "id"]
+    return [
+        # ORDER BY the column b while the select list calls something else "b"
+        base([{"e": A, "alias": "b", "type": "int"}, {"e": ID, "alias": None, "type": "int"}], order_cols=[[B, None], [ID, None]], shadow="orderby_column"),
+        base([{"e": ["neg", A], "alias": "b", "type": "int"}, {"e": ID, "alias": "id", "type": "int"}], order_cols=[[B, "desc"], [ID, None]], shadow="orderby_column"),
+        # GROUP BY the aliased expression whose alias is the name of another column
+        base([{"e": ["abs", A], "alias": "b", "type": "int"}, {"e": ["agg", "COUNT", None, False, None], "alias": "n", "type": "int"}], group=[["abs", A]], group_by_aliased_item=True,
+             order=[[0, None]], shadow="groupby_alias"),
+        base([{"e": ["abs", A], "alias": "a", "type": "int"}, {"e": ["agg", "COUNT", None, False, None], "alias": "n", "type": "int"}], group=[["abs", A]], group_by_aliased_item=True,
+             order=[[0, None]], shadow="groupby_alias"),
+    ]
+
+
 @st.composite
 def case_st(draw):
+    if draw(st.integers(0, 24)) == 0:
+        sa = json.loads(json.dumps(draw(st.sampled_from(shadow_selects()))))
+        return {"sa": sa, "dbs": [draw(database()) for _ in range(3)], "avoided": 0}
     g = G(draw)
     fc = draw(st.integers(0, 11))
     if fc == 0:
@@ -490,8 +514,11 @@ def P_select(sa):
         steps.append(["distinct", []])
     if sa["where"] is not None:
         steps.append(["where", [P_expr(sa["where"], True)]])
-    for ge in sa["group"]:
-        steps.append(["groupby", [P_expr(ge, True)]])
+    for gi, ge in enumerate(sa["group"]):
+        node = P_expr(ge, True)
+        if sa.get("group_by_aliased_item") and gi == 0 and sa["items"][0]["alias"]:
+            node = ["as", node, sa["items"][0]["alias"]]  # the very term object that stands, aliased, in the select list
+        steps.append(["groupby", [node]])
     if sa["having"] is not None:
         steps.append(["having", [P_expr(sa["having"], True)]])
     if sa["setop"]:
@@ -502,6 +529,8 @@ def P_select(sa):
         if it["alias"]:
             node = ["as", node, it["alias"]]
         steps.append(["orderby", [node], ({"order": ["enum", "Order", od]} if od else {})])
+    for e, od in sa.get("order_cols") or []:
+        steps.append(["orderby", [P_expr(e, True)], ({"order": ["enum", "Order", od]} if od else {})])
     if sa["limit"] is not None:
         steps.append(["limit", [["raw", sa["limit"]]]])
     if sa["offset"] is not None:
@@ -669,9 +698,11 @@ def R_select(sa, top=True):
         other = sa["setop"][1]
         # SQLite has no bracketed operands: a compound operand is written as a FROM-subquery
         sql += " %s %s" % (op, ("SELECT * FROM (%s)" % R_select(other)) if (other.get("setop") or other["limit"] is not None or other["offset"] is not None) else R_select(other))
-    if sa["order"]:
+    order_parts = ["%d%s" % (i + 1, " " + od.upper() if od else "") for i, od in sa["order"]]
+    order_parts += ["%s%s" % (R_expr(e, qual), " " + od.upper() if od else "") for e, od in (sa.get("order_cols") or [])]  # always qualified: the COLUMN is meant
+    if order_parts:
         # positions are unambiguous for plain and compound selects alike
-        sql += " ORDER BY " + ", ".join("%d%s" % (i + 1, " " + od.upper() if od else "") for i, od in sa["order"])
+        sql += " ORDER BY " + ", ".join(order_parts)
     if sa["limit"] is not None or sa["offset"] is not None:
         sql += " LIMIT %d" % (sa["limit"] if sa["limit"] is not None else -1)
         if sa["offset"] is not None:
@@ -803,7 +834,7 @@ def check(case, stats=None):
     except Exception as e:
         return [(mksig(sa["kind"], "build_raises", type(e).__name__), "the builder calls raised %r ; reference %r" % (e, ref))], None
     info = {"sql": sql, "ref": ref, "nonempty": False, "bytecode_equal": False}
-    ordered = bool(is_query and sa["order"])
+    ordered = bool(is_query and (sa["order"] or sa.get("order_cols")))
     for db in case["dbs"]:
         a = execute(ref, db, is_query)
         b = execute(sql, db, is_query)
@@ -855,6 +886,8 @@ def feature(sa):
     text = json.dumps(sa)
     if sa["setop"] and sa["setop"][1].get("setop"):
         return "nested_setop_operand"
+    if sa.get("shadow"):
+        return "alias_shadows_column:" + sa["shadow"]
     wins = [it["e"] for it in sa["items"] if it["e"][0] == "win"]
     if any(len(w) > 5 and w[5] for w in wins):
         return "window_frame"
@@ -910,6 +943,8 @@ def valid_case(case):
         sa = case["sa"]
         if _literal_positions(sa):
             return False
+        if sa.get("shadow") and sa not in shadow_selects():
+            return False  # the hand-written alias / column collisions stay as they are (only the databases shrink)
         if sa["kind"] == "update_join" and not (isinstance(sa.get("on"), list) and sa["on"][0] == "eq" and sa["on"][1][0] == "col" and sa["on"][2][0] == "col" and sa["from"]):
             return False  # the generator links the target's key to a column of the joined table
         ref = R_stmt(sa)
